@@ -307,6 +307,7 @@ pub struct EncOut {
     pub overflow: bool,
     pub late: u64,
     pub heap_base: u64,
+    pub tail_heap: u64, // peak between the last I/O call and the return of the operation
 }
 
 /// One encryption run.
@@ -366,6 +367,7 @@ pub fn enc_once(ctx: &Ctx, scn: &Value) -> EncOut {
         "pass" => pass_encrypt(&mut rd, &mut wr, &pw, sl, PassFileFormat::V1),
         _ => panic!("api"),
     }));
+    let tail_heap = alloc::take_peak();
     alloc::enable(false);
     let res = match &r {
         Ok(x) => enc_res(x),
@@ -438,6 +440,7 @@ pub fn enc_once(ctx: &Ctx, scn: &Value) -> EncOut {
         overflow: l.overflow,
         late: l.late_events,
         heap_base: 0,
+        tail_heap,
     };
     out
 }
@@ -555,7 +558,7 @@ pub fn run_rt(ctx: &Ctx, scn: &Value) -> Vec<Value> {
         }
         ok
     };
-    lines.push(json!({"ev":"end","res":if o.overflow {"hang"} else {o.res},"cons":o.consumed,"acc":o.accepted,
+    lines.push(json!({"ev":"end","heap":o.tail_heap,"res":if o.overflow {"hang"} else {o.res},"cons":o.consumed,"acc":o.accepted,
                       "eofs":o.eof_reads,"late":o.late,"sender_ok":o.sender_ok,"boundary":boundary}));
     lines
 }
@@ -593,7 +596,7 @@ pub fn enc_lines(ctx: &Ctx, scn: &Value, out: &EncOut) -> Vec<Value> {
     emit_events(&mut lines, &out.events, |i, _e, j| {
         j["cov"] = json!(covs[i]);
     });
-    lines.push(json!({"ev":"end","res":if out.overflow {"hang"} else {out.res},"cons":out.consumed,"acc":out.accepted,
+    lines.push(json!({"ev":"end","heap":out.tail_heap,"res":if out.overflow {"hang"} else {out.res},"cons":out.consumed,"acc":out.accepted,
                       "eofs":out.eof_reads,"late":out.late}));
     lines
 }
@@ -794,6 +797,7 @@ pub struct DecOut {
     pub eof_reads: u64,
     pub overflow: bool,
     pub late: u64,
+    pub tail_heap: u64, // peak between the last I/O call and the return of the operation
 }
 
 pub fn dec_once(ctx: &Ctx, scn: &Value, f: Source, expect: Expect, kseed: u64, wrong_key: bool) -> DecOut {
@@ -838,6 +842,7 @@ pub fn dec_once(ctx: &Ctx, scn: &Value, f: Source, expect: Expect, kseed: u64, w
             _ => panic!("api"),
         }
     }));
+    let tail_heap = alloc::take_peak();
     alloc::enable(false);
     let res = match r {
         Ok(x) => x,
@@ -854,6 +859,7 @@ pub fn dec_once(ctx: &Ctx, scn: &Value, f: Source, expect: Expect, kseed: u64, w
         eof_reads: l.eof_reads,
         overflow: l.overflow,
         late: l.late_events,
+        tail_heap,
     }
 }
 
@@ -942,7 +948,7 @@ pub fn run_dec(ctx: &Ctx, scn: &Value) -> Vec<Value> {
         }
         ok
     };
-    lines.push(json!({"ev":"end","res":if out.overflow {"hang"} else {out.res},"cons":out.consumed,"acc":out.accepted,
+    lines.push(json!({"ev":"end","heap":out.tail_heap,"res":if out.overflow {"hang"} else {out.res},"cons":out.consumed,"acc":out.accepted,
                       "eofs":out.eof_reads,"late":out.late,"sender_ok":out.sender_ok,"boundary":boundary}));
     lines
 }
@@ -1041,7 +1047,7 @@ pub fn run_bigdec(ctx: &Ctx, scn: &Value) -> Vec<Value> {
         j["due"] = json!(due);
     });
     let boundary = o.accepted == plen || o.accepted % chunk == 0;
-    lines.push(json!({"ev":"end","res":if o.overflow {"hang"} else {o.res},"cons":o.consumed,"acc":o.accepted,
+    lines.push(json!({"ev":"end","heap":o.tail_heap,"res":if o.overflow {"hang"} else {o.res},"cons":o.consumed,"acc":o.accepted,
                       "eofs":o.eof_reads,"late":o.late,"sender_ok":o.sender_ok,"boundary":boundary}));
     lines
 }
